@@ -10,7 +10,9 @@
 From Coq Require Import List NArith ZArith QArith Bool String.
 From Qryn Require Import model.TqSql model.Traceql model.TraceqlPlan model.TraceqlSem
      proofs.TraceqlBitsetProofs proofs.TraceqlAnalyzeProofs proofs.TraceqlEvalProofs proofs.TraceqlSelectorProofs
-     proofs.TraceqlWfProofs model.TraceqlPortions proofs.TraceqlPortionsProofs.
+     proofs.TraceqlWfProofs model.TraceqlPortions proofs.TraceqlPortionsProofs
+     model.TraceqlCase proofs.TraceqlIndexSearchProofs proofs.TraceqlIndexCorrectProofs proofs.TraceqlGroupedProofs
+     proofs.TraceqlTopkProofs proofs.TraceqlCorrectProofs.
 Import ListNotations.
 Open Scope string_scope.
 
@@ -112,3 +114,71 @@ Theorem portions_fold_topk : forall (all : list tr) (part : N -> N) (k : nat) (f
   forall n S f, reach all part k from0 n S f -> topk k (U all part from0 n) S.
 Proof. exact reach_topk. Qed.
 Print Assumptions portions_fold_topk.
+
+(* 9. Statement level, layer "selector -> spans": the whole statement of AttrConditionPlanner (the CTE index_search: FROM the
+   attribute index, the date/time window and the key/val pre-filter in WHERE, GROUP BY trace_id, span_id, the bit-set HAVING,
+   the SELECT list with any(duration), any(timestamp_ns) and the aggregated value), run by the evaluator over ANY consistent
+   attribute index, evaluates, and its rows are exactly the spans inside the time window whose rows satisfy the selector's
+   expression, each with its trace, span id, duration, timestamp and aggregated value. *)
+Theorem index_search_selects_matching_spans : forall re_match parse_float hash64 c d e attr conds,
+  db_consistent c d ->
+  keys_ok e = true -> map_res get_term (fst (snd (analyze_cond e ([], [])))) = Ok conds ->
+  forallb term_lit_ok (fst (snd (analyze_cond e ([], [])))) = true ->
+  (List.length (fst (snd (analyze_cond e ([], [])))) <= 64)%nat -> (cond_depth (fst (analyze_cond e ([], []))) <= 28)%nat ->
+  exists T : list mspan,
+    (forall rec cte, eval_body re_match parse_float hash64 [(attrs_table c, map row_of_irow d)] rec cte false (stmt1 c e attr conds)
+                     = Some (map mspan_row T))
+    /\ forall m, In m T <-> exists sp, In sp (spans_of c d) /\ exp_sem re_match parse_float true e (sp_rows sp) = true
+                                       /\ m = mspan_of parse_float attr sp.
+Proof. exact index_search_layer. Qed.
+Print Assumptions index_search_selects_matching_spans.
+
+(* 10. Layer "group per trace, HAVING, ORDER BY .. LIMIT": the statement of IndexGroupByPlanner (+ the HAVING AggregatorPlanner
+   adds, + the LIMIT of IndexLimitPlanner), run by the evaluator over any typed content T of index_search, returns one row per
+   trace -- its id and the first 100 span ids -- for the groups that pass HAVING; with LIMIT k the first k of them in the order
+   of max(timestamp_ns) descending. *)
+Theorem index_grouped_evaluates : forall re_match parse_float hash64 tables rec cte (T : list mspan),
+  env_get "index_search" cte = Some (map mspan_row T) ->
+  forall (hv : option expr) (P : list mspan -> bool),
+  match hv with Some h => having_aliases ev_fuel h | None => [] end = [] ->
+  (forall h m0 rest, hv = Some h -> In (m0 :: rest) (group_rows same_tr T) ->
+     ev re_match parse_float hash64 cte al2 ["trace_id"] ev_fuel true "" (map qrow (m0 :: rest)) (qrow m0) h = Some (vbool (P (m0 :: rest)))) ->
+  (hv = None -> forall g, P g = true) ->
+  forall withs lim,
+  eval_body re_match parse_float hash64 tables rec cte false (grouped_stmt withs hv lim)
+  = option_map (map g_row) (grouped_answer T P lim).
+Proof. exact grouped_bridge. Qed.
+Print Assumptions index_grouped_evaluates.
+
+(* 11. Layer "top-limit selection": what ORDER BY .. LIMIT of the evaluator keeps (grouped_answer) is all groups that pass
+   HAVING when limit = 0, else min(limit, all) of them, and no group left out is more recent than a group kept. *)
+Theorem limit_keeps_most_recent : forall (T : list mspan) (P : list mspan -> bool) (c : ctx) (SEL : list (list mspan)),
+  grouped_answer T P (lim_of c) = Some SEL ->
+  exists rest, Permutation.Permutation (SEL ++ rest) (filter P (group_rows same_tr T))
+               /\ (limit c = 0%Z -> rest = [])
+               /\ (limit c <> 0%Z -> List.length SEL = Nat.min (Z.to_nat (limit c)) (List.length (filter P (group_rows same_tr T))))
+               /\ forall x y, In x SEL -> In y rest -> (g_key y <= g_key x)%Z.
+Proof. exact grouped_answer_spec. Qed.
+Print Assumptions limit_keeps_most_recent.
+
+(* 12. traceql_correct, one selector: for every search with one selector (any boolean expression of conditions; no aggregate
+   filter), every window, limit >= 0 and every consistent attribute index in which no trace has more than 100 spans inside the
+   window (groupArray(100) cuts the span list there): the statement Plan + Process build, run by the evaluator up to its CTE
+   index_grouped, returns what the script means -- result_ok, the judgement the check applies at run time to the
+   implementation's own statements: every returned trace matches, with exactly its matched spans; no trace twice; all matching
+   traces, or the `limit` most recent of them.  Guards: equal keys = equal terms, <= 64 distinct terms, nesting depth <= 28
+   (the evaluator's fuel), literals print exactly (lits_exact), one statement for the request (rf_max = 0; portions: theorem 8). *)
+Theorem traceql_correct_single : forall re_match parse_float hash64 (c : ctx) (d : db),
+  rf_max c = 0%Z -> db_consistent c d -> spans_capped c d ->
+  forall e : attr_exp,
+  keys_ok e = true ->
+  forallb term_lit_ok (fst (snd (analyze_cond e ([], [])))) = true ->
+  (List.length (fst (snd (analyze_cond e ([], [])))) <= 64)%nat ->
+  (cond_depth (fst (analyze_cond e ([], []))) <= 28)%nat ->
+  lits_exact e = true ->
+  forall (ao : andor) (n : nat) (s : select),
+  plan (q1 e ao) MSearch c n = Ok s ->
+  exists res, index_rows_g re_match parse_float hash64 c d s = Some res
+              /\ result_ok c (traceql_sem re_match parse_float false c d (q1 e ao)) res = true.
+Proof. exact TraceqlCorrectProofs.traceql_correct_single. Qed.
+Print Assumptions traceql_correct_single.
